@@ -185,9 +185,9 @@ def parse_miri(err):
         if head.startswith("aborting due to") or "could not compile" in head:
             continue
         frames = re.findall(r"\d+: ([^\n]+)\n\s+at ([^\n]+)", part)
-        first_repo = next((fn.strip() for fn, at in frames if at.strip().startswith("/repo/")), None)
-        first_at = next((at.strip() for fn, at in frames if at.strip().startswith("/repo/")), None)
-        m = re.search(r"-->\s*(/repo/[^\s]+)", part)
+        first_repo = next((fn.strip() for fn, at in frames if at.strip().startswith(runner.REPO_PREFIX)), None)
+        first_at = next((at.strip() for fn, at in frames if at.strip().startswith(runner.REPO_PREFIX)), None)
+        m = re.search(r"-->\s*(" + re.escape(runner.REPO_PREFIX) + r"[^\s]+)", part)
         if first_repo is None and m:
             first_repo, first_at = m.group(1).rsplit("/", 1)[-1], m.group(1)
         blk = {"headline": head[:300], "first_repo_frame": coarse_frame(first_repo or "?"), "at": first_at or "?"}
@@ -270,7 +270,7 @@ def parse_tsan(err):
         if not m:
             continue
         frames = re.findall(r"#\d+ ([^\s]+) ([^\s]+)", part)
-        fn = next((f for f, at in frames if "/repo/" in at), None)
+        fn = next((f for f, at in frames if runner.REPO_PREFIX in at), None)
         if fn is None:
             fn = next((f for f, at in frames if "intern" in f), "?")
         fn = coarse_frame(re.sub(r"::h[0-9a-f]{16}$", "", fn))
@@ -284,7 +284,7 @@ def parse_asan(err):
     for m in re.finditer(r"==\d+==ERROR: (AddressSanitizer|LeakSanitizer): ([^\n]*)", err):
         part = err[m.start():m.start() + 6000]
         frames = re.findall(r"#\d+ 0x[0-9a-f]+ in ([^\s]+) ([^\s]+)", part)
-        fn = next((f for f, at in frames if "/repo/" in at), "?")
+        fn = next((f for f, at in frames if runner.REPO_PREFIX in at), "?")
         fn = coarse_frame(re.sub(r"::h[0-9a-f]{16}$", "", fn))
         kind = m.group(2).split(" on ")[0].split(":")[0].strip().replace(" ", "-")[:40] or "error"
         blocks.append({"tool": "asan" if m.group(1) == "AddressSanitizer" else "lsan", "kind": kind,
